@@ -879,7 +879,7 @@ func (g *progen) classDecl(sc *pscope, depth int, ind string) string {
 		b.WriteString(in2 + "static { $(" + g.pid() + ", \"static-block\"); }\n")
 	}
 	if g.rng.Intn(3) == 0 {
-		b.WriteString(in2 + "*it() { yield 1; yield " + g.paren(g.expr(mkScope(), 1), pAssign) + "; }\n")
+		b.WriteString(in2 + "*it() { yield 1; yield [" + g.paren(g.expr(mkScope(), 1), pAssign) + "]; }\n")
 	}
 	b.WriteString(ind + "}\n")
 	inst := g.name("c")
